@@ -692,4 +692,16 @@ theorem ne_nil_of_valid {xs : List Atom} {idx : List Int}
   | nil => exact hne rfl
   | cons i _ => have := h i (by simp); simp at this; omega
 
+/-- an in-place edit of atom `k` can change "starts a segment" only at atoms `k` and `k + 1` -/
+theorem isStart_set_local {α : Type} (b : α → α → Bool) (xs : List α) (k : Nat) (a : α) (j : Nat)
+    (h1 : j ≠ k) (h2 : j ≠ k + 1) : isStart b (xs.set k a) j = isStart b xs j := by
+  unfold isStart
+  rw [List.length_set]
+  cases j with
+  | zero => simp
+  | succ i =>
+    have : i ≠ k := by omega
+    simp only [Nat.add_sub_cancel]
+    rw [List.getElem?_set_ne (by omega), List.getElem?_set_ne (by omega)]
+
 end BiotiteModel.C17
